@@ -27,6 +27,8 @@ def jobs(tier):
                        "_expect": "known:" + KF, "_known_labels": ["update-stored-block-is-not-plaintext", "update-stored-block-carries-encryption-link"]})
     js.append({"id": "O3.history.no-encryption", "func": "VerifH_C11_History", "conf": {"doc": 0, "fcfg": 0, "class": 2},
                "_obligation": "O1", "_covers": ["history"], "unwind": 60})
+    for doc in (0, 1):
+        js.append({"id": f"O3.mixed-heads.doc{doc}", "func": "VerifH_C11_MixedHeads", "conf": {"doc": doc}, "_obligation": "O3", "_covers": ["mixed"], "unwind": 300})
     js.append({"id": "twin", "func": "VerifH_C11_Reach", "conf": {}, "_obligation": "vacuity", "_expect": "twin", "_covers": ["end"]})
     return js
 
